@@ -1,4 +1,5 @@
 import SSV.Proofs.StreamAuth
+import SSV.Proofs.StreamStickyBase
 /-
 Schedules that CONTINUE after errors (a caller that calls Read / WriteTo / the tunnel copy again
 after a failed read), on the conn with its sticky read error (`SReader`, `readErr`).
@@ -28,12 +29,6 @@ theorem failed_run_bytes (C : Crypto) (r : Reader) (e : Err) (ops : List ROp) :
   | nil => rfl
   | cons op ops ih => simp [failedOut_bytes, ih]
 
-theorem hardErr_none_iff (o : ROut) : o.hardErr = none ↔ (o.err = none ∨ o.err = some .eof) := by
-  unfold ROut.hardErr
-  cases h : o.err with
-  | none => simp
-  | some e => cases e <;> simp
-
 /-- a continuing schedule hands over exactly the bytes of the schedule cut at the first error -/
 theorem srun_bytes (C : Crypto) (ops : List ROp) : ∀ r : Reader,
     ((SReader.run C ⟨r, none⟩ ops).map ROut.bytes).flatten = ((Reader.run C r ops).map ROut.bytes).flatten := by
@@ -59,35 +54,6 @@ theorem srun_bytes (C : Crypto) (ops : List ROp) : ∀ r : Reader,
           simp only [Reader.run, herr]
         rw [hrun, hh, failed_run_bytes]
         simp
-
-/-- on a schedule that the stopping semantics runs to its end, the conn with the sticky error
-behaves exactly the same (the guard is invisible as long as nothing fails) -/
-theorem srun_eq_run (C : Crypto) (ops : List ROp) : ∀ r : Reader,
-    (Reader.run C r ops).length = ops.length → SReader.run C ⟨r, none⟩ ops = Reader.run C r ops := by
-  induction ops with
-  | nil => intro r _; rfl
-  | cons op ops ih =>
-    intro r hlen
-    simp only [SReader.run, SReader.step, sticky_fact, ↓reduceIte]
-    cases herr : (r.step C op).1.err with
-    | none =>
-      have hh : (r.step C op).1.hardErr = none := (hardErr_none_iff _).mpr (Or.inl herr)
-      simp only [Reader.run, herr, List.length_cons, Nat.add_right_cancel_iff] at hlen ⊢
-      rw [hh, ih _ hlen]
-    | some e =>
-      by_cases he : e = .eof
-      · subst he
-        have hh : (r.step C op).1.hardErr = none := (hardErr_none_iff _).mpr (Or.inr herr)
-        simp only [Reader.run, herr, List.length_cons, Nat.add_right_cancel_iff] at hlen ⊢
-        rw [hh, ih _ hlen]
-      · have hrun : Reader.run C r (op :: ops) = [(r.step C op).1] := by
-          simp only [Reader.run, herr]
-        rw [hrun] at hlen ⊢
-        have : ops = [] := by
-          simp at hlen
-          exact hlen.symm
-        subst this
-        rfl
 
 /-- a client conn whose sticky error is set fails every later call without touching anything -/
 theorem client_failed (C : Crypto) (c : CReader) (e : Err) (he : c.err = some e) (now : Int) :
